@@ -237,6 +237,15 @@ func (c *Ctx) Finish(verifDir string, seed int64, start time.Time, explanation s
 			cov[k] = v
 		}
 	}
+	if assumptions == nil {
+		assumptions = []string{}
+	}
+	assumptions = append(assumptions,
+		"the verdict is about /repo's source as loaded by go/packages for the default build configuration (linux/amd64, no build tags)",
+		"undecided clauses of the property (listed in DESIGN.md section 6 and in MANIFEST level_note) are not covered by this check")
+	if trusted == nil {
+		trusted = []string{}
+	}
 	ev := map[string]any{
 		"property_id": c.Prop,
 		"tier":        c.Tier,
